@@ -10,7 +10,8 @@ Unload/OnStop exactly once (and Responsive, OneRegistered) on packs of the model
 Binding: (1) for every named deviation (known finding) TLC searches the FAITHFUL model (no deviation) for the stuck
 state behind it; the environment actions of that behaviour become a script that harness/cmd/conn runs on a real broker
 under watchdogs (request 2 s, Stop 3 s, goroutine profile after Stop); only a reproduced divergence is reported.  (2) The model with all
-deviations enabled must satisfy every property (any further counter-example is converted and run the same way).  (3) A
+deviations that the source has not repaired must satisfy every property on the source's constants (any counter-example is
+converted and run the same way).  (3) A
 fixed regression library of scripts.  (4) Free-running storms on a -race build; their lifecycle hook events are validated
 by TLC against spec/TraceConn.tla.  See DESIGN.md C15 / B.4."""
 import json, os, threading, time
@@ -20,32 +21,61 @@ LEVEL = "model_checking"
 
 
 # ------------------------------------------------------------------------------------------------ packs of the model
-def packs(tier):
+def window_closed(ops):
+    """per deviation: do the constants extracted from the source say that the defect behind it is repaired?"""
+    return {
+        "in_send_unguarded": ops["in_send_guard"],
+        "seterror_blocks_in_once": ops["seterror_offer_in_once"] and not ops["seterror_write_in_once"],
+        "unregistered_not_closed": ops["stop_tracks_all"] and (ops["writeloop_exit_closes_sock"] or ops["hsfail_closes_sock"]),
+        "no_close_after_error": ops["writeloop_exit_closes_sock"],
+        "will_timer_outlives_stop": False,          # (nothing in the extraction speaks about the will timer)
+        "c05_relock_window": not ops["relock_window"],
+    }
+
+
+def packs(tier, ops_in_send_guard=False):
+    """packs of the model; sizes measured with the constants of the repaired source (drain included)"""
     P = cl.pack
     ps = {
-        # pack                                                        the deviation whose absence it must expose
         "v3err":    P("v3err", rest=("bad",)),
+        "resp":     P("resp", rest=("bad",), TrackOwed=True, props=cl.PROPS + ["Responsive"]),        # = v3err + Responsive
         "v5stall":  P("v5stall", rest=("ping", "bad"), v5=(1,), PeerReads=False, CapSock=0),
+        # a v5 peer that never reads, room for one packet in the socket: CONNACK goes out, the DISCONNECT of a coded error is
+        # written by writeLoop (main select or the drain of the close branch) and blocks there
+        "v5drain":  P("v5drain", rest=("bad",), v5=(1,), PeerReads=False, CapSock=1),
         "hs":       P("hs", first=("connect", "badconnect"), rest=("ping",)),
+        "hs0":      P("hs0", first=("connect", "badconnect"), rest=()),
         "will":     P("will", rest=("disc",), v5=(1,), WillDelay=True),
+        "will0":    P("will0", rest=(), v5=(1,), WillDelay=True),
         "take":     P("take", rest=(), NConn=2, SameId=True, PriorSession=True, PeerMayClose=False, WithStop=False, deadlock=False),
-        "resp":     P("resp", rest=("bad",), TrackOwed=True, props=cl.PROPS + ["Responsive"]),
     }
+    if tier == "quick":
+        # (measured at load 30-45 this model runs at ~2.5k states/s per JVM: the quick tier gets ~0.6M transitions)
+        # when the source guards the in-send, three packets (CONNECT, error, one more) exercise both branches of that select
+        b = 3 if ops_in_send_guard else 4
+        ps.update({
+            # CONNECT + one protocol error: setError, writeLoop's exit closing the socket, Responsive (the select of the guarded
+            # in-send needs a third packet: pack v5drainq)
+            "respq":    P("respq", rest=("bad",), TrackOwed=True, Budget=2 if ops_in_send_guard else 4, props=cl.PROPS + ["Responsive"]),
+            "v5drainq": P("v5drainq", rest=("bad",), v5=(1,), PeerReads=False, CapSock=1, PeerMayClose=False, Budget=b),   # only Stop ends it
+            "hsw":      P("hsw", first=("connect", "badconnect"), rest=(), v5=(1,), WillDelay=True),                       # handshake + will timer
+        })
+        expose = {"in_send_unguarded": "v3err", "seterror_blocks_in_once": "v5drain", "unregistered_not_closed": "hs0",
+                  "will_timer_outlives_stop": "will0", "c05_relock_window": "take", "no_close_after_error": "resp"}
+        green = ["respq", "v5drainq", "hsw"]
+        return ps, expose, green
     expose = {"in_send_unguarded": "v3err", "seterror_blocks_in_once": "v5stall", "unregistered_not_closed": "hs",
               "will_timer_outlives_stop": "will", "c05_relock_window": "take", "no_close_after_error": "resp"}
-    # measured (all deviations on): v3err 91k states, hs 164k, will 81k, resp 108k; v5stall 406k, take 874k (two connections)
-    green = ["v3err", "hs", "will", "resp"]
-    if tier == "thorough":
-        ps.update({
-            "disc":     P("disc", rest=("disc", "ping")),                            # 283k states
-            "v3pb":     P("v3pb", rest=("ping", "bad")),                             # 313k
-            "okack":    P("okack", rest=("ok", "ack")),                              # 522k
-            "v5mal":    P("v5mal", rest=("mal",), v5=(1,), PeerReads=False, CapSock=0),
-            "keep":     P("keep", rest=("bad",), KeepAlive=True),                    # 107k
-            "api":      P("api", rest=("bad",), ApiCalls=1),                         # 362k
-            "cap2":     P("cap2", rest=("bad",), CapIn=2, CapOut=2, Budget=5),       # 135k
-        })
-        green += ["v5stall", "take", "disc", "v3pb", "okack", "v5mal", "keep", "api", "cap2"]
+    ps.update({
+        "disc":     P("disc", rest=("disc", "ping")),
+        "v3pb":     P("v3pb", rest=("ping", "bad")),
+        "okack":    P("okack", rest=("ok", "ack")),
+        "v5mal":    P("v5mal", rest=("mal",), v5=(1,), PeerReads=False, CapSock=0),
+        "keep":     P("keep", rest=("bad",), KeepAlive=True),
+        "api":      P("api", rest=("bad",), ApiCalls=1),
+        "cap2":     P("cap2", rest=("bad",), CapIn=2, CapOut=2, Budget=5),
+    })
+    green = ["v3err", "resp", "hs", "will", "v5drain", "v5stall", "take", "disc", "v3pb", "okack", "v5mal", "keep", "api", "cap2"]
     return ps, expose, green
 
 
@@ -60,6 +90,8 @@ def library(tier):
          "steps": [S("connect", k=1), S("send", k=1, kind="connect"), S("send", k=1, kind="disc"), S("send", k=1, kind="ping", n=10), S("settle"), S("stop")]},
         {"id": "lib_seterror_disconnect_to_stalled_v5_peer", "kind": "script", "conns": [c(1, 5, "l3", smallbuf=True)],
          "steps": [S("connect", k=1), S("send", k=1, kind="connect"), S("stall", k=1), S("flood", k=1), S("send", k=1, kind="bad"), S("settle"), S("stop")]},
+        {"id": "lib_coded_error_to_stalled_v5_peer_socket_full_out_not", "kind": "script", "conns": [c(1, 5, "l3b", smallbuf=True)],
+         "steps": [S("connect", k=1), S("send", k=1, kind="connect"), S("stall", k=1), S("flood", k=1, n=140), S("send", k=1, kind="bad"), S("settle"), S("stop")]},
         {"id": "lib_takeover_of_stalled_v5_peer", "kind": "script", "conns": [c(1, 5, "same", smallbuf=True), c(2, 5, "same")],
          "steps": [S("connect", k=1), S("send", k=1, kind="connect"), S("stall", k=1), S("flood", k=1), S("settle"), S("connect", k=2), S("send", k=2, kind="connect")]},
         {"id": "lib_silent_connection_then_stop", "kind": "script", "conns": [c(1, 4, "l4")],
@@ -89,7 +121,7 @@ def library(tier):
 
 
 def storms(ctx, tier):
-    n = 8 if tier == "quick" else 96
+    n = 6 if tier == "quick" else 96
     out = []
     for i in range(n):
         big = tier == "thorough" and i % 3 == 0
@@ -155,26 +187,39 @@ def run(ctx):
                                                      (" [select %s]" % ",".join(o.get("select_others") or []) if o["select"] else "")) for o in table["ops"]]
     vlib.log("[C15] source: " + ", ".join("%s=%s" % kv for kv in sorted(ops.items())))
 
-    # builds run next to TLC
-    berr = []
-
-    def build():
-        try:
-            ctx.go_build(["./cmd/conn"])
-            ctx.go_build(["./cmd/conn"], race=True)
-        except BaseException as e:       # noqa
-            berr.append(e)
-    bt = threading.Thread(target=build)
-    bt.start()
-
-    ps, expose, green = packs(ctx.tier)
+    ps, expose, green = packs(ctx.tier, ops["in_send_guard"])
+    closed = window_closed(ops)
+    ctx.cov["windows_closed_in_source"] = closed
+    # deviations the model needs on top of the source's constants: the ones whose defect is still in the source
+    model_devs = sorted(d for d in cl.ALL_DEVS if not closed[d])
+    lib = library(ctx.tier)
+    st = storms(ctx, ctx.tier)
+    origin = {sc["id"]: "regression library" for sc in lib}
     results = {}
     errors = []
     lock = threading.Lock()
+    side = {}
+
+    # ---- real broker, independent of TLC: builds, regression library, storms (race build) -- next to the model checking
+    def real_side():
+        try:
+            cl.build_driver(ctx, race=False)
+            cl.build_driver(ctx, race=True)
+            t0 = time.time()
+            side["lib"] = cl.run_driver(ctx, lib, race=False, par=8)
+            vlib.log("[C15] %d library scripts on the real broker in %.1fs" % (len(lib), time.time() - t0))
+            t0 = time.time()
+            side["storms"] = cl.run_driver(ctx, st, race=True, par=6, timeout=180)
+            vlib.log("[C15] %d storms (race build) in %.1fs" % (len(st), time.time() - t0))
+        except BaseException as e:       # noqa
+            errors.append(e)
+    rt = threading.Thread(target=real_side)
+    rt.start()
 
     def job(key, pk, dev, tag):
         try:
-            res, ce = cl.tlc_pack(ctx, pk, ops, dev, tag, workers=2 if q else 4, timeout=900 if q else 3000,
+            res, ce = cl.tlc_pack(ctx, pk, ops, dev, tag, workers=6 if pk["name"] in ("resp", "respq", "v5drain", "v5stall", "take", "okack") else 3,
+                                  timeout=900 if q else 3000,
                                   target=key[1] if key[0] == "expose" else None)
             with lock:
                 results[key] = (pk, res, ce)
@@ -183,41 +228,38 @@ def run(ctx):
 
     jobs = []
     for dname, pname in expose.items():
-        if dname == "c05_relock_window" and not ops["relock_window"]:
-            # lockDuplicatedID locks srv.mu once: the window is not in the source, an exhaustive search of the two-connection
-            # pack for it is left to the green run of the thorough tier
-            ctx.notes.append("lockDuplicatedID has no unlock/lock window in the source (relock_window=False): no search for the C05 double registration")
+        if closed[dname] and q:
+            # the source's constants say the defect is repaired: the exhaustive proof that its stuck state is unreachable is
+            # left to the thorough tier (the green runs below check every property on the same constants anyway)
             continue
+        if dname == "c05_relock_window" and closed[dname]:
+            continue        # two connections: covered by the green run of pack take
         jobs.append((("expose", dname), ps[pname], [], "faithful_" + dname))
     for pname in green:
-        jobs.append((("green", pname), ps[pname], cl.ALL_DEVS, "all"))
-    ths = [threading.Thread(target=job, args=j) for j in jobs]
-    # at most 8 JVMs at a time
-    sem = threading.Semaphore(8)
+        jobs.append((("green", pname), ps[pname], model_devs, "src"))
+    sem = threading.Semaphore(4 if q else 6)       # JVMs at a time (4 workers each)
 
-    def guarded(t):
+    def guarded(j):
         with sem:
-            t.run()
-    ths = [threading.Thread(target=guarded, args=(t,)) for t in ths]
+            job(*j)
+    ths = [threading.Thread(target=guarded, args=(j,)) for j in jobs]
     for t in ths:
         t.start()
     for t in ths:
         t.join()
-    bt.join()
+    rt.join()
     if errors:
         raise errors[0]
-    if berr:
-        raise berr[0]
 
-    # ---- (1) counter-examples of the model without one deviation -> scripts
+    # ---- (1) behaviours of the model -> scripts
     scen = []
-    origin = {}
     predicted = {}
     for (kind, name), (pk, res, ce) in sorted(results.items()):
         if kind == "expose":
             if ce is None:
-                ctx.notes.append("Conn.tla with the source's guards (no deviation) cannot reach the stuck state of finding %s any more (pack %s)" % (name, pk["name"]))
-                predicted[name] = None
+                if not closed[name]:
+                    ctx.notes.append("Conn.tla with the source's constants cannot reach the stuck state of finding %s although the extraction does not say it is repaired (pack %s)" % (name, pk["name"]))
+                predicted[name] = "unreachable (exhaustive, pack %s, %d states)" % (pk["name"], res.distinct)
                 continue
             what = "stuck state of %s reachable in the faithful model after %d steps" % (name, len(ce) - 1)
             predicted[name] = what
@@ -234,14 +276,12 @@ def run(ctx):
                 sc = cl.ce_to_scenario(ce, pk, "ce_green_" + name)
                 sc["model_property"] = what
                 scen.append(sc)
-                origin[sc["id"]] = "TLC counter-example (%s) of pack %s WITH every deviation enabled" % (what, pk["name"])
+                origin[sc["id"]] = "TLC counter-example (%s) of pack %s with the source's constants and deviations %s" % (what, pk["name"], model_devs)
     ctx.cov["model_predictions"] = predicted
-    lib = library(ctx.tier)
-    for sc in lib:
-        origin[sc["id"]] = "regression library"
     t0 = time.time()
-    out = cl.run_driver(ctx, scen + lib, race=False, par=8)
-    vlib.log("[C15] %d scripts on the real broker in %.1fs" % (len(scen) + len(lib), time.time() - t0))
+    out = cl.run_driver(ctx, scen, race=False, par=8) if scen else {}
+    vlib.log("[C15] %d scripts from TLC behaviours on the real broker in %.1fs" % (len(scen), time.time() - t0))
+    out.update(side["lib"])
     nscript = 0
     for sc in scen + lib:
         res = out[sc["id"]]
@@ -263,10 +303,7 @@ def run(ctx):
     ctx.cov["scripts_executed"] = nscript
 
     # ---- (4) storms on the -race build + trace validation of the lifecycle events
-    st = storms(ctx, ctx.tier)
-    t0 = time.time()
-    sres = cl.run_driver(ctx, st, race=True, par=4 if q else 6, timeout=180)
-    vlib.log("[C15] %d storms (race build) in %.1fs" % (len(st), time.time() - t0))
+    sres = side["storms"]
     agg = {}
     for sc in st:
         r = sres[sc["id"]]
@@ -335,8 +372,9 @@ def run(ctx):
     ctx.cov["storm_connections"] = nstorm_conns
     ctx.cov["rule"] = ("TLC: every pack of Conn.tla (constants Ops extracted from server/client.go and server/server.go by go/ast at check time) is "
                        "checked for deadlock, StopReturns, SockClosedLeadsToClosed, NothingAliveAfterStop, OnceOnly, OneRegistered, LifecycleInv (pack "
-                       "`resp` also Responsive) with all named deviations enabled (must hold); for each deviation the stuck state behind it is searched in "
-                       "the faithful model (no deviation) and the shortest behaviour reaching it is converted into a script. Real broker: every converted counter-example, the regression library and the storms are executed "
+                       "`resp` also Responsive) with those constants plus the named deviations whose defect is still in the source (must hold); for each "
+                       "such deviation the stuck state behind it is searched in the faithful model (no deviation) and the shortest behaviour reaching "
+                       "it is converted into a script; for a deviation the source has repaired the thorough tier proves the stuck state unreachable. Real broker: every converted counter-example, the regression library and the storms are executed "
                        "by harness/cmd/conn, one fresh in-process broker per process; verdict clauses: request answered or connection closed within "
                        "2 s, closed socket => `closed` event within 2 s, Stop returns nil within 3 s, Unload/OnStop once, no gmqtt frame in the "
                        "goroutine profile after Stop / after all peers closed. Storm lifecycle events are validated by TLC against TraceConn.tla. "
